@@ -4,6 +4,17 @@ breaking change (it sees only the property text and a scratch worktree /tmp/seed
 to /tmp/seedprompts<ROUND>/<ID>.txt and creates the worktree."""
 import json, os, subprocess, sys
 rnd, ids = sys.argv[1], sys.argv[2:]
+# an argument may be ID or "ID=trigger class to aim for"
+classes = {}
+ids2 = []
+for a in ids:
+    if "=" in a:
+        i, c = a.split("=", 1)
+        classes[i] = c
+        ids2.append(i)
+    else:
+        ids2.append(a)
+ids = ids2
 tmpl = """You are working alone in a scratch git worktree of the Go library goark/go-cvss located at {wt} (a detached worktree of the repository; work ONLY inside {wt} and {wt}-out). Do NOT read, list or modify anything under /verif, and do not modify /repo. Do not use `git stash` (it is shared between worktrees); use `git checkout -- .` or `git apply -R`. The sandbox is offline: every shell call that runs Go needs
   export GOFLAGS=-mod=mod GOPROXY=off GOSUMDB=off GOTOOLCHAIN=local
 The library's existing test suite is run with `go test -vet=off -count=1 ./...` from the worktree root (it currently passes). If a Go command rewrites go.mod/go.sum, restore them with git checkout.
@@ -20,7 +31,7 @@ YOUR TASK: produce a change to the library's non-test source code that BREAKS th
  (a) the module still compiles (`go build ./...`),
  (b) the complete existing test suite, unedited, still passes,
  (c) the breakage is HARD TO HIT: it must need something specific to manifest — an unusual input shape (length, byte values, unicode, whitespace, separators, very long or deeply structured input), a particular rare combination of metric values, a multi-step sequence of operations in a particular order, a particular goroutine interleaving or first-use timing, a fault at a particular point, or two cooperating code sites that each look fine alone. Aim for a trigger that a randomly generated valid or slightly mutated vector (or a random short sequence of API calls) would hit with probability well below 1 in 10,000, and that a simple exhaustive loop over the obvious small domains (all metric-value combinations in canonical order through a freshly constructed decoder, one token changed at a time) would not reach — think of how the value gets INTO the object or HOW the object is used (token order, omitted versus explicit Not Defined, which decoder level, nil receiver versus constructor, fields assigned directly, earlier queries, process history, concurrency) rather than of the arithmetic alone. It should still look like a plausible refactoring, optimisation, robustness fix or slip that a maintainer could really introduce (no comments announcing the bug, no magic-string backdoors that no maintainer would write).
-Read the relevant source and the existing tests first so that you know what the tests pin. Produce TWO different changes if you can (different mechanism or code site), each as its own patch; one is acceptable if the second does not work out.
+{klass}Read the relevant source and the existing tests first so that you know what the tests pin. Produce TWO different changes if you can (different mechanism or code site), each as its own patch; one is acceptable if the second does not work out.
 
 DELIVERABLES in {wt}-out/ (create files there):
  - patch1.diff (and patch2.diff): `git diff` of the source change against HEAD; it must apply to a clean checkout with `git apply`.
@@ -32,7 +43,10 @@ os.makedirs(f"/tmp/seedprompts{rnd}", exist_ok=True)
 for i in ids:
     p = props[i]
     wt = f"/tmp/seed{rnd}-{i}"
-    open(f"/tmp/seedprompts{rnd}/{i}.txt", "w").write(tmpl.format(wt=wt, title=p["title"], statement=p["statement"], quant=p["quantifier"]["text"]))
+    klass = ""
+    if i in classes:
+        klass = "TRIGGER CLASS TO AIM FOR IN THIS TASK (both patches, if possible with different mechanisms): " + classes[i] + ".\n"
+    open(f"/tmp/seedprompts{rnd}/{i}.txt", "w").write(tmpl.format(wt=wt, title=p["title"], statement=p["statement"], quant=p["quantifier"]["text"], klass=klass))
     subprocess.run(["git", "-C", "/repo", "worktree", "add", "-q", "--detach", wt, "HEAD"], check=True)
     os.makedirs(wt + "-out", exist_ok=True)
 print("prepared", ids)
